@@ -134,6 +134,14 @@ class Vec:
     def between(self, lo: Vec, hi: Vec) -> bool:
         return lo <= self <= hi
 
+    def __hash__(self) -> int:
+        # deliberately outside the Py_ssize_t range for |x| >= 2, and -1 for Vec(0, -1): the builtin `hash` reduces both
+        return self.__x * (1 << 62) + self.__y
+
+    def bucket(self, other: Vec) -> int:
+        """builtin `hash` of objects: `__hash__`, then the builtin's reduction of the integer it returned"""
+        return hash(self) * 3 - hash(other)
+
 
 # ---- arithmetic ---------------------------------------------------------------------------------------
 
